@@ -38,7 +38,7 @@ def run_shared(chk, tier, own):
                 ev = indx.file_event(IndxIO, tid, arity, common, ents, str(wd), cuts=(own == "C12" or tid % 7 == 0))
                 events.append(ev)
                 meta[tid] = {"kind": "file", "arity": arity, "common": common, "ents": ents}
-        if own in ("C11", "C12"):
+        if own in ("C10", "C11", "C12"):
             # the same writer used from several threads at once: every file is still the layout of its own data (and its
             # size field that of its own payload - a smaller one would let torn prefixes pass)
             ccases = [c for c in indx.gen_file_cases(tier, core.SEED + 4) if len(c[2]) >= 1][:: 3][: (400 if tier == "quick" else 4000)] * (6 if tier == "quick" else 3)
